@@ -98,6 +98,8 @@ type vfcfbCore struct {
 	failReadErr   error
 	failedRead    *vfcfbOp
 	failReadBody  int              // 0: the armed read fails as a call; 1,2,3: a "get" succeeds but its reader fails after 0 / half / len-1 bytes
+	lastModAll    time.Time        // if set: the LastModified served for every object without an own entry in lastMod
+	attrIterAll   int              // > 0: IterWithAttributes of every non-root directory fails after attrIterAll-1 entries
 	attrIterFault map[string]int   // IterWithAttributes of this directory fails after yielding n entries (plain Iter, Get, Delete keep working)
 	beforeOp      func(op vfcfbOp) // hook run (outside the lock) before operation number beforeOpSeq is executed
 	beforeOpSeq   int
@@ -173,6 +175,24 @@ func (c *vfcfbCore) armReadBodyFault(n, cut int) {
 func (c *vfcfbCore) armReadFaultRelative(n int, err error, cut int) {
 	c.mu.Lock()
 	c.failReadSeq, c.failReadErr, c.failReadBody, c.failedRead = c.readSeq+n, err, cut, nil
+	c.mu.Unlock()
+}
+
+func (c *vfcfbCore) setAttrIterAll(n int) {
+	c.mu.Lock()
+	c.attrIterAll = n
+	c.mu.Unlock()
+}
+
+func (c *vfcfbCore) setLastModAll(t time.Time) {
+	c.mu.Lock()
+	c.lastModAll = t
+	c.mu.Unlock()
+}
+
+func (c *vfcfbCore) setBeforeOp(seq int, f func(vfcfbOp)) {
+	c.mu.Lock()
+	c.beforeOpSeq, c.beforeOp = seq, f
 	c.mu.Unlock()
 }
 
@@ -382,6 +402,10 @@ func (v *vfcfbView) IterWithAttributes(ctx context.Context, dir string, f func(o
 	}
 	v.core.mu.Lock()
 	failAfter, faulty := v.core.attrIterFault[dir]
+	if !faulty && v.core.attrIterAll > 0 && dir != "" {
+		failAfter, faulty = v.core.attrIterAll-1, true
+	}
+	all := v.core.lastModAll
 	v.core.mu.Unlock()
 	yielded := 0
 	err := v.core.mem.IterWithAttributes(ctx, dir, func(a objstore.IterObjectAttributes) error {
@@ -393,6 +417,9 @@ func (v *vfcfbView) IterWithAttributes(ctx context.Context, dir string, f func(o
 		lm, ok := v.core.lastMod[a.Name]
 		none := v.core.noLastMod
 		v.core.mu.Unlock()
+		if !ok && !all.IsZero() {
+			lm, ok = all, true
+		}
 		if none {
 			a.SetLastModified(time.Time{})
 		} else if ok {
@@ -506,6 +533,8 @@ func (v *vfcfbView) Attributes(ctx context.Context, name string) (objstore.Objec
 	v.core.mu.Lock()
 	if lm, ok := v.core.lastMod[name]; ok {
 		a.LastModified = lm
+	} else if !v.core.lastModAll.IsZero() {
+		a.LastModified = v.core.lastModAll
 	}
 	if v.core.noLastMod {
 		a.LastModified = time.Time{}
